@@ -345,3 +345,33 @@ pub fn probe_chunking() {
 	}
 	println!("{n} runs, {diffs} differences");
 }
+
+/// A source that fails once, with `ErrorKind::Interrupted`, on its n-th call
+/// (outside the model, whose faults are persistent): shows what a consumer
+/// that retries after `Interrupted` — as `read_exact` / `read_to_end` do —
+/// gets from the capturing reader.
+pub fn probe_transient() {
+	struct Once {
+		data: Vec<u8>,
+		pos: usize,
+		calls: usize,
+		fail_call: usize,
+	}
+	impl std::io::Read for Once {
+		fn read(&mut self, buf: &mut [u8]) -> std::io::Result<usize> {
+			self.calls += 1;
+			if self.calls == self.fail_call {
+				return Err(std::io::Error::new(std::io::ErrorKind::Interrupted, "EINTR"));
+			}
+			let n = buf.len().min(self.data.len() - self.pos);
+			buf[..n].copy_from_slice(&self.data[self.pos..self.pos + n]);
+			self.pos += n;
+			Ok(n)
+		}
+	}
+	use xt::verif::HandleOp::*;
+	let ops = [Borrow, Read(2), Borrow, Read(5), Read(5)];
+	let obs = xt::verif::handle_program(Once { data: vec![1, 2, 3, 4, 5, 6, 7, 8], pos: 0, calls: 0, fail_call: 2 }, &ops);
+	println!("data 01..08, source call 2 fails once with Interrupted; ops B,R2,B,R5,R5:");
+	println!("  {}", obs.iter().map(crate::engines::input::obs_token).collect::<Vec<_>>().join(" "));
+}
